@@ -213,7 +213,7 @@ class C16(Prop):
     assumptions = ['panics inside syn/structmeta/quote are observable only by running them: covered by the mutation run (a test), not by the theorem']
 
     def n(self, tier):
-        return 1500 if tier == 'quick' else 20000
+        return 1500 if tier == 'quick' else 60000
 
     def cases(self, tier, rng):
         g, gi = Gen(rng), ImplGen(rng)
@@ -251,7 +251,7 @@ class C16(Prop):
                 continue
             tok_seeds.append((s[0], [t for t in a[1].split(' ') if t], [t for t in it[1].split(' ') if t]))
         donors = [t[2] for t in tok_seeds]
-        total = 6000 if tier == 'quick' else 150000
+        total = 6000 if tier == 'quick' else 600000
         inputs, metas = [], []
         kinds = collections.Counter()
         seen = set()
